@@ -22,9 +22,11 @@
    offset (C07_accepted_name_and_colon); a non-empty value begins and ends with a byte that is not white
    space (C07_accepted_value_is_trimmed).  Together: accepted => name *WSP ":" LWS [value LWS] with
    the name and value extents exactly those of the text.
-   PARTIAL: lone CR / lone LF line ends on the completeness side; on the converse side the internal
-   structure of the white space (which CR / LF sequences count as folds and which as the line end):
-   render/parse oracle and the correspondence run. *)
+   Any line terminator (EolSpec.v): CR LF, lone CR or lone LF per line, for the line and for the block
+   (C07_header_line_any_terminator, C07_header_block_any_terminators); an accepted line ends at a line end that is not
+   followed by a blank, for every input (EolConv.v, C07_accepted_line_ends_at_a_line_end).
+   PARTIAL: on the converse side the internal structure of the white space inside the value (which CR / LF sequences
+   count as folds): render/parse oracle and the correspondence run. *)
 From Sipsp Require Import Harness Classify HdrLine FLineSpec HdrSpec BlockSpec TrimSpec EolSpec EolConv.
 
 Theorem C07_header_line : forall p name wsb lead t1 tl d x,
